@@ -19,6 +19,14 @@ Lemma hc_exists_pre {A T} (c : M A) (P : T -> assn) (Q : A -> assn) (E : eassn) 
   (forall t, hc (P t) c Q E) -> hc (fun k => exists t, P t k) c Q E.
 Proof. intros H s [t Hs]. apply (H t s Hs). Qed.
 
+(* side condition on the regenerated signal set-up: halt() waits with the mask that cli() saved, in which
+   setup_signals() has blocked SIGPIPE and SIGXFSZ; so a signal promoted by a failing worker thread cannot kill the
+   process before the main thread has run cleanup() *)
+Lemma sc_halt_mask :
+  fatal_signals_blocked_in_halt = true /\ halt_suspend_mask = cli_saved_mask /\
+  setup_blocked_set = "blocked"%string /\ blocked_signals = ["SIGPIPE"; "SIGXFSZ"]%string.
+Proof. repeat split. Qed.
+
 Section C16.
   Variable codec : cmode -> bytes -> cres.
   Variable cf : cfg.
@@ -346,6 +354,15 @@ Section C16.
     Lemma I_fatal {T} w tag (Q : T -> assn) : hc (I w) (fatal pl tag) Q EX.
     Proof. eapply fatal_from. apply I_cleanup. Qed.
 
+    Lemma I_write_failed {T} inhalt w e (Q : T -> assn) : hc (I w) (write_failed pl inhalt e) Q EX.
+    Proof.
+      assert (D : forall sg, hc (I w) (die_by pl (A:=T) inhalt sg) Q EX).
+      { intro sg. unfold die_by. rewrite (proj1 sc_halt_mask), andb_false_r.
+        eapply hc_bind with (R := fun _ => PAc true); [apply I_cleanup|]. intro.
+        apply hc_stop. intros c H. apply (PAc_fatal true). exact H. }
+      unfold write_failed. destruct (N.eqb e EFBIG); [apply D|]. destruct (N.eqb e EPIPE); [apply D | apply I_fatal].
+    Qed.
+
     Lemma I_handled (P : assn) w sg :
       (forall c, P c -> I w c) ->
       hc (fun c => P c /\ k_blocked c = true) (cleanup pl) (fun _ c => EX (Killed sg) WSigHandled c) EX.
@@ -384,7 +401,7 @@ Section C16.
       unfold do_write. destruct ch as [|x ch]; [apply hc_ret; intros c H; rewrite app_nil_r; exact H|].
       assert (G : forall (k : kindc) (f : fs -> fs * sysres unit),
                  (forall g, fst (f g) = eff_write cf o (x :: ch) g) -> (forall g, snd (f g) = SOk tt) ->
-                 hc (I w) (r <- sys pl inhalt k f;; match r with SErr _ => fatal pl "write" | _ => ret tt end)
+                 hc (I w) (r <- sys pl inhalt k f;; match r with SErr e => write_failed pl inhalt e | _ => ret tt end)
                     (fun _ => I (w ++ x :: ch)) EX).
       { intros k f Hf Hs.
         eapply hc_bind with (R := fun r c => match r with SErr _ => I w c | _ => I (w ++ x :: ch) c end).
@@ -394,7 +411,7 @@ Section C16.
           + intros c e H. exact H.
           + intros c H. unfold natural_ok. rewrite Hs, Hf. apply I_write. exact H.
           + intros _ sg. apply (I_handled _ w). auto.
-        - intro r. destruct r; [apply hc_ret; auto | apply I_fatal | apply hc_ret; auto]. }
+        - intro r. destruct r; [apply hc_ret; auto | apply I_write_failed | apply hc_ret; auto]. }
       destruct o as [| |i].
       - apply G; reflexivity.
       - apply hc_ret. intros c H. pose proof (I_write w (x :: ch) c H) as H'. cbn in H'.
@@ -1069,11 +1086,9 @@ Section HP.
                | Ret _ s' => m_hist s' = m_hist s | Stop _ _ s' => m_hist s' = m_hist s end).
     { intros s2 E. destruct (f (m_fs s2)) as [f' r]. destruct r; exact E. }
     destruct (plan_lookup pl k _) as [[e|sg]|]; [reflexivity| |apply N; reflexivity].
-    destruct sg; try reflexivity.
-    - destruct (m_blocked s1); [|reflexivity]. destruct inhalt; [|apply N; reflexivity].
-      unfold handled_in_halt, bind, stop. specialize (Hcl s1). destruct (cl s1); exact Hcl.
-    - destruct (m_blocked s1); [|reflexivity]. destruct inhalt; [|apply N; reflexivity].
-      unfold handled_in_halt, bind, stop. specialize (Hcl s1). destruct (cl s1); exact Hcl.
+    destruct sg; try reflexivity;
+      (destruct (m_blocked s1); [|reflexivity]; destruct inhalt; [|apply N; reflexivity];
+       unfold handled_in_halt, bind, stop; specialize (Hcl s1); destruct (cl s1); exact Hcl).
   Qed.
 
   Ltac hpa :=
@@ -1132,7 +1147,7 @@ Section HP.
   Proof. induction n; cbn [main_reads]; [apply hp_ret|]. apply hp_bind; [apply hp_sys|]. intro r. destruct r; auto. apply hp_fatal. Qed.
 
   Lemma hp_do_write inhalt o c : hp (do_write cf pl inhalt o c).
-  Proof. unfold do_write. hpb. Qed.
+  Proof. unfold do_write, write_failed, die_by. hpb. Qed.
 
   Lemma hp_do_io iin o evs : hp (do_io cf pl iin o evs).
   Proof.
